@@ -493,7 +493,7 @@ def load_universe(ctx):
     if ctx.quick:
         # the quick tier adds a seeded subset of the thorough universe (the seed selects, it never generates anything new)
         extra = [c for c in thorough if c not in quick and not c.startswith("JinjaRel_marker")]
-        sim = emit(ctx, extra, simulate=300)
+        sim = emit(ctx, extra, simulate=600)
         for name in extra:
             cs = sorted((c for c in sim[name] if c["k"] != "tables"), key=lambda c: json.dumps(c, sort_keys=True))
             uniq = [c for i, c in enumerate(cs) if i == 0 or c != cs[i - 1]]
@@ -692,6 +692,7 @@ def selftests(ctx, keep):
 
 
 def replay(ctx, case):
+    ctx.tier = "replay"  # a failing replay writes replay-NNN.json instead of overwriting the file it was started from
     got = emit(ctx, ["JinjaRel_assert"])
     tables = next(c for c in got["JinjaRel_assert"] if c["k"] == "tables")
     ctx.cov["model_runs"] = []
